@@ -1217,3 +1217,67 @@ def run(ctx):
         "elements by declaration order; the adversarial symbols exclude parentheses, braces, commas, semicolons and line breaks",
         "RenamerImpl models str.lower() on ASCII only",
     ]
+
+
+def selftest(ctx):
+    """./check C38 --selftest : corrupt one recorded field of a good observation at a time; every clause of
+    Renamer!Failures must reject its corruption and the uncorrupted observations must be accepted."""
+    from ..gen import Gen
+
+    kws = run_tasks([{"kind": "kw"}])[0]
+    kwpath = os.path.join(ctx.sub("const"), "kw.json")
+    tlc.write_json(kwpath, kws)
+    good = None
+    for _ in range(60):
+        P = Gen(ctx.rng, adversarial_names=True, objfluents=False, bool_expr_assign=False, boolconst=False, invariants=False).problem()
+        r = run_tasks([{"kind": "h", "id": 1, "lang": "pddl", "mode": "fresh", "steps": [{"op": "write", "P": P}]},
+                       {"kind": "h", "id": 2, "lang": "anml", "mode": "fresh", "steps": [{"op": "write", "P": P}]}])
+        if all("ops" in x and x["ops"][-1]["status"] == "ok" for x in r):
+            its = r[0]["ops"][-1]["items"]
+            if sum(1 for it in its if it["kind"] == "fluent") >= 2 and any(it["kind"] == "param" for it in its):
+                good = r
+                break
+    if good is None:
+        raise MachineryError("selftest: no writable problem generated")
+    plan = {1: ("pddl", "k", True, "fresh"), 2: ("anml", "k", True, "fresh")}
+    traces = assemble(ctx, good, plan, len(kws["general"]), {})
+    tp = [t for t in traces if t["lang"] == "pddl"][0]
+    ta = [t for t in traces if t["lang"] == "anml"][0]
+    out, exp = [tp, ta], []
+
+    def variant(t, nid, fn, expect):
+        v = copy.deepcopy(t)
+        v["id"] = nid
+        fn(v["ops"][-1])
+        out.append(v)
+        exp.append((nid, expect))
+
+    o = tp["ops"][-1]
+    fl = [i for i, it in enumerate(o["items"]) if it["kind"] == "fluent"]
+    pa = [i for i, it in enumerate(o["items"]) if it["kind"] == "param"]
+    up = lambda n: [c - 32 if 97 <= c <= 122 else c for c in n]  # noqa
+    variant(tp, 10, lambda o: o["items"][fl[0]].update(named=False, name=[]), "Named")
+    variant(tp, 11, lambda o: o["items"][fl[0]].update(name=cp("1x")), "Valid")
+    variant(tp, 12, lambda o: o["items"][pa[0]].update(name=cp("x")), "Valid")
+    variant(tp, 13, lambda o: o["items"][fl[0]].update(name=cp("AND")), "NotKeyword")
+    variant(tp, 14, lambda o: o["items"][fl[1]].update(name=up(o["items"][fl[0]]["name"])), "Distinct")
+    variant(tp, 15, lambda o: o["items"][fl[0]].update(back=o["items"][fl[0]]["back"] + 1), "Inverse")
+    variant(tp, 16, lambda o: o["text"][2]["names"].__setitem__(0, cp("a b")), "TextValid")
+    variant(tp, 17, lambda o: o["text"][2]["names"].append(o["text"][2]["names"][0]), "TextDistinct")
+    variant(tp, 18, lambda o: o["text"][2]["names"].pop(), "TextAgrees")
+    variant(tp, 19, lambda o: o["tback"][0].update(ok=False), "TextInverse")
+    variant(tp, 20, lambda o: o["items"][fl[0]].update(fresh=cp("zz")), "HistoryIndependent")
+    variant(ta, 30, lambda o: o["items"][0].update(name=cp("a-b")), "Valid")
+    variant(ta, 31, lambda o: o["items"][0].update(name=cp("fluent")), "NotKeyword")
+    variant(ta, 32, lambda o: o["items"][1].update(name=o["items"][0]["name"]), "Distinct")
+    judge(ctx, "selftest", out, {"KW": kwpath}, {})
+    got = {}
+    for v in ctx.violations:
+        got.setdefault(v.data["trace_id"], []).append(v.sig.split("|")[0])
+    ok = not got.get(tp["id"]) and not got.get(ta["id"])
+    print("selftest: uncorrupted observations accepted: %s" % ok)
+    for nid, e in exp:
+        hit = e in got.get(nid, [])
+        ok = ok and hit
+        print("selftest: corruption %d must be rejected by %s: %s (clauses %s)" % (nid, e, "yes" if hit else "NO", got.get(nid)))
+    return 0 if ok else 1
